@@ -532,7 +532,16 @@ def main(argv: list[str] | None = None) -> int:
 
     # ---- run -------------------------------------------------------------------------------------
     total = Acc()
+    import atexit
     import concurrent.futures as cf
+    import shutil
+    import tempfile
+
+    # one scratch root per run: pool workers leave through os._exit and never run their own cleanup
+    tmproot = tempfile.mkdtemp(prefix="a816verif_run_")
+    os.environ["VERIF_TMPROOT"] = tmproot
+    owner = os.getpid()
+    atexit.register(lambda: os.getpid() == owner and shutil.rmtree(tmproot, ignore_errors=True))
 
     ctx = mp.get_context("fork")
     pool = cf.ProcessPoolExecutor(NPROC, mp_context=ctx, initializer=_worker_init, initargs=(pid,))
